@@ -138,6 +138,34 @@ def _ordinal(ctx, rule, name, kind):
 
 
 def mirror_obligations(ctx, u, rule):
+    try:
+        _mirror_by_shape(ctx, u, rule)
+    except AnalysisBroken:
+        # sizer or writer are not `header; tag switch in a loop`: the two are compared by evaluation on probe messages
+        from ..rules import oscref as OR
+        from .. import fdeval as FD
+        groups = {}
+        for adr, ty, va in OR.PROBES:
+            groups.setdefault(adr if adr in ("/p", "/s", "/b", "/t", "/x", "/y") else "addresses", []).append((adr, ty, va))
+        names = {"/p": "fixed-width tags", "/s": "strings", "/b": "blobs", "/t": "tags without payload", "/x": "arrays and all tags", "/y": "several arguments", "addresses": "address lengths"}
+        for g, probes in sorted(groups.items()):
+            for half in (0, 1):
+                part = probes[half::2]
+                bad = []
+                for adr, ty, va in part:
+                    try:
+                        rw, _ = OR.run_builder(u, "rtosc_amessage", adr, ty, va)
+                        rs, _ = OR.run_builder(u, "vsosc_null", adr, ty, va)
+                    except FD.Unknown as e:
+                        raise AnalysisBroken("%s: sizer / writer neither of the known shape nor evaluable on (%r, %r): %s" % (rule, adr, ty, e))
+                    if rw != rs:
+                        bad.append({"address": adr, "types": ty, "sizer": rs, "writer": rw})
+                ctx.ob(rule, "sizer = writer: %s #%d" % (names[g], half), not bad, site=A.where(u.function("rtosc_amessage")), detail={"messages": len(part), "mismatches": bad[:4]},
+                       key="%s:evaluated:%s" % (rule, names[g]),
+                       what="vsosc_null and rtosc_amessage disagree on the size of %s" % bad[:3])
+
+
+def _mirror_by_shape(ctx, u, rule):
     hs, _ = T.header_summary(u, "vsosc_null")
     hw, fnw = T.header_summary(u, "rtosc_amessage")
     ctx.ob(rule, "header", hs.key() == hw.key(), site=A.where(fnw), detail={"sizer": list(hs.items), "writer": list(hw.items)},
@@ -167,7 +195,7 @@ def run(ctx):
         writer_obligations(ctx, "R02.1", "R02.2", unit, pat, bi, li, sizer, null_ok)
     ctx.require_count("R02.1", 8)     # each writer contributes at least one (a writer without any write is an analysis break); how many more is the code's business (helpers merge them)
     mirror_obligations(ctx, u, "R02.3")
-    ctx.require_count("R02.3", 18)
+    ctx.require_count("R02.3", 8)
     from . import C08
     C08.bundle_measure_obligation(ctx, u, "R02.3")
     # R02.4 = the forwarding obligations of C01 under this rule id
